@@ -58,7 +58,7 @@ pub const UNPARSEABLE: &[&str] =
     &["local = = 1\n", "x = = 2\n", "function end end\n", "if then\n", "return return\n", "\u{feff}local bom = 1\n"];
 
 /// Formatted text differs for every value of every option (self-checked by `probe_selfcheck`).
-pub const PROBE: &str = "local b = require(\"b\")\nlocal a = require(\"a\")\nlocal s1 = \"plain\"\nlocal s2 = 'has\"dq'\nlocal s3 = \"has'sq\"\nf(\"x\")\ng({ 1 })\nh \"y\"\nk { 2 }\nfunction foo(p)\n\tif p then\n\t\treturn\n\tend\n\tlocal r = bar(p)\n\treturn function()\n\t\treturn r\n\tend\nend\nlocal l30 = call(aaaaaa, bbbbbb, cccc)\nlocal l50 = call(aaaaaaaaaa, bbbbbbbbbb, cccccccccc, ddd)\nlocal l70 = call(aaaaaaaaaaaaaa, bbbbbbbbbbbbbb, cccccccccccccc, dddddddddd)\nlocal l90 = call(aaaaaaaaaaaaaaaaaaa, bbbbbbbbbbbbbbbbbbb, ccccccccccccccccccc, ddddddddddddddd)\nlocal l110 = call(aaaaaaaaaaaaaaaaaaaaaaaa, bbbbbbbbbbbbbbbbbbbbbbbb, cccccccccccccccccccccccc, dddddddddddddddddddd)\nlocal l135 = call(aaaaaaaaaaaaaaaaaaaaaaaaaaaaaa, bbbbbbbbbbbbbbbbbbbbbbbbbbbbbb, cccccccccccccccccccccccccccccc, ddddddddddddddddddddddddddd)\n";
+pub const PROBE: &str = "local b = require(\"b\")\nlocal a = require(\"a\")\nlocal s1 = \"plain\"\nlocal s2 = 'has\"dq'\nlocal s3 = \"has'sq\"\nf(\"x\")\ng({ 1 })\nh \"y\"\nk { 2 }\nfunction foo(p)\n\tif p then\n\t\treturn\n\tend\n\tlocal r = bar(p)\n\tdo\n\t\tlocal w115 = call(aaaaaaaaaaaaaaaaaaaaaaaaaaaaaaaaaaaaaaaaaaaaaaa, bbbbbbbbbbbbbbbbbbbbbbbbbbbbbbbbbbbbbbbbbbbbbbb)\n\t\tlocal w113 = call(aaaaaaaaaaaaaaaaaaaaaaaaaaaaaaaaaaaaaaaaaaaaaa, bbbbbbbbbbbbbbbbbbbbbbbbbbbbbbbbbbbbbbbbbbbbbb)\n\t\tlocal w108 = call(aaaaaaaaaaaaaaaaaaaaaaaaaaaaaaaaaaaaaaaaaaa, bbbbbbbbbbbbbbbbbbbbbbbbbbbbbbbbbbbbbbbbbbbb)\n\tend\n\treturn function()\n\t\treturn r\n\tend\nend\nlocal l30 = call(aaaaaa, bbbbbb, cccc)\nlocal l50 = call(aaaaaaaaaa, bbbbbbbbbb, cccccccccc, ddd)\nlocal l70 = call(aaaaaaaaaaaaaa, bbbbbbbbbbbbbb, cccccccccccccc, dddddddddd)\nlocal l90 = call(aaaaaaaaaaaaaaaaaaa, bbbbbbbbbbbbbbbbbbb, ccccccccccccccccccc, ddddddddddddddd)\nlocal l110 = call(aaaaaaaaaaaaaaaaaaaaaaaa, bbbbbbbbbbbbbbbbbbbbbbbb, cccccccccccccccccccccccc, dddddddddddddddddddd)\nlocal l135 = call(aaaaaaaaaaaaaaaaaaaaaaaaaaaaaa, bbbbbbbbbbbbbbbbbbbbbbbbbbbbbb, cccccccccccccccccccccccccccccc, ddddddddddddddddddddddddddd)\n";
 
 /// One source per syntax feature; which of them parse is the observable signature of `syntax`.
 pub const SYNTAX_PROBES: &[(&str, &str)] = &[
@@ -157,7 +157,7 @@ pub fn editorconfig_text(rng: &mut Rng) -> String {
         let n = rng.range(1, 3);
         let mut used = BTreeSet::new();
         for _ in 0..n {
-            let (k, v): (&str, String) = match rng.below(9) {
+            let (k, v): (&str, String) = match rng.below(10) {
                 0 => ("indent_style", rng.pick(&["tab", "space"]).to_string()),
                 1 => ("indent_size", rng.pick(INDENT_WIDTHS).to_string()),
                 2 => ("max_line_length", rng.pick(COLUMN_WIDTHS).to_string()),
@@ -166,6 +166,7 @@ pub fn editorconfig_text(rng: &mut Rng) -> String {
                 5 => ("call_parentheses", rng.pick(&["Always", "NoSingleString", "NoSingleTable", "None"]).to_string()),
                 6 => ("space_after_function_names", rng.pick(&["Always", "Definitions", "Calls", "Never"]).to_string()),
                 7 => ("collapse_simple_statement", rng.pick(&["Never", "FunctionOnly", "ConditionalOnly", "Always"]).to_string()),
+                8 => ("tab_width", rng.pick(INDENT_WIDTHS).to_string()),
                 _ => ("sort_requires", rng.pick(&["true", "false"]).to_string()),
             };
             if used.insert(k) {
